@@ -57,7 +57,7 @@ CHECKS = {
     'C13': chk('E1 kani-exec', 'model_checking', 'DESIGN.md §4 C13', EXEC_T + '; ' + MIR_T,
                'Executor harness: setup and dispose reach every ordinary, thread-local and batched system exactly once on every listed layout. E2: the fan-out functions, the blanket RunNow impl and the batch wrapper forward setup/dispose exactly once; DefaultProvider::setup is entry().or_insert_with(default) and nothing else; PanicHandler / Option setups are empty; AsyncDispatcher::setup and the async hand-over steps (state back before anything else) likewise.', BOTH_NOTE),
     'C18': chk('E1 kani-step', 'model_checking', 'DESIGN.md §4 C18', STEP_T + '; ' + MIR_T,
-               'Totality: every reachable panic (unwrap, overflow, indexing, group capacity) inside insertion_target/find_conflict/remove_ids/improves_balance and the commit is a CBMC check on every listed shape, and a joined group always has room; by induction no well-formed sequence panics. E2: add panics exactly on an unknown dependency or a reused non-empty name, quoting it, before anything is inserted; the empty name never touches the map; a fresh name is recorded exactly once, keyed by an owned copy of the name as given, with the id handed to insert; a rejected registration leaves the name map as it was.', BOTH_NOTE),
+               'Totality: every reachable panic (unwrap, overflow, indexing, group capacity) inside insertion_target/find_conflict/remove_ids/improves_balance and the commit is a CBMC check on every listed shape, and a joined group always has room; by induction no well-formed sequence panics. E2: add panics exactly on an unknown dependency or a reused non-empty name, quoting it, before anything is inserted; the empty name never touches the map; a fresh name is recorded exactly once, keyed by an owned copy of the name as given, with the id handed to insert; a rejected registration leaves the name map as it was; has_system / contains are one lookup in that same map under the name as given.', BOTH_NOTE),
 }
 
 CHECKS.update({
